@@ -11,7 +11,7 @@
 //! older value of the key exists outside the compaction input.
 
 use crate::model::crdt::{fold_impl, proj_s, visible};
-use crate::model::stream::{gen_stream, StreamCfg};
+use crate::model::stream::{gen_stream, gen_stream_at, StreamCfg};
 use crate::simkit::clock::SimClock;
 use crate::simkit::rt::{self, Sched};
 use crate::simkit::runner::{Property, RunCtx, RunReport, Tier};
@@ -108,8 +108,11 @@ impl Property for C13 {
         let n_compactions = 1 + src.below(2);
         let extra: Vec<ReplicationDelta> = if concurrent {
             // the concurrently flushed updates come from the tail of another stream over the same keys
-            let (s2, _) = gen_stream(src, &StreamCfg { nrep: scfg.nrep, nkeys: scfg.nkeys, max_ops: 4, hashes: scfg.hashes, type_changes: false, deletes: true, expiry: false }, t_end);
-            s2.into_iter().map(|e| { let mut d = e.delta; d.value.timestamp.time += 1000; if let Some(l) = d.value.lww_mut() { l.timestamp.time += 1000; } d }).collect()
+            // the concurrent writer continues the replicas' clocks: no stamp of the first stream (top-level or
+            // per hash field) is issued again with a different value
+            let base = stream.iter().map(|e| e.delta.value.timestamp.time).max().unwrap_or(0) + 1000;
+            let (s2, _) = gen_stream_at(src, &StreamCfg { nrep: scfg.nrep, nkeys: scfg.nkeys, max_ops: 4, hashes: scfg.hashes, type_changes: false, deletes: true, expiry: false }, t_end, base);
+            s2.into_iter().map(|e| e.delta).collect()
         } else { vec![] };
         let yield_bias = src.below(8);
         let trace = ctx.trace;
